@@ -92,7 +92,7 @@ void harness(void)
   if (verif_rv >= 0) V_CANARY("api.status_reachable");
   if (verif_rv == -ETIMEDOUT) V_CANARY("api.timeout_reachable");
   if (verif_rv == -EINVAL) V_CANARY("api.einval_reachable");
-  if (g.nsig > 1 && g.plan_on) V_CANARY("api.two_signals_reachable");
+  if (g.nsig > 1 && gc.plan_on) V_CANARY("api.two_signals_reachable");
 #else
 #error "select an API function"
 #endif
